@@ -814,6 +814,64 @@ def rule_is_blank(chk: Check, R: str = "R-combinators"):
                 f"follows a NEWLINE; it differs on (kind, text, mode, previous, result) = {bad[:3]}")
 
 
+def eval_leaf_matcher(fnode: ast.FunctionDef, q: str) -> tuple[str, list]:
+    """A token matcher of the runtime (`name`, `keyword`, `soft_keyword`, `token`, `expect`) evaluated over a finite domain of next
+    tokens (kind x text x argument) with a recording fake tokenizer: whatever its spelling (a helper for the shared prefix,
+    locals, guard clauses), it must consume exactly one token exactly when its condition holds and nothing otherwise.
+    Returns (why-undecided, counter-examples)."""
+    import types as _types
+    from .c17 import EvalError as _EvalError, _mini_eval as _mini
+    KINDS = ("NAME", "OP", "NUMBER", "STRING", "NEWLINE")
+    TEXTS = ("x", "if", "match", "+", "1", "NAME", "OP")
+
+    class _TokEnum:
+        def __init__(self):
+            for k in KINDS:
+                setattr(self, k, ("Token", k))
+
+        def __getitem__(self, k):
+            if k not in KINDS:
+                raise KeyError(k)
+            return ("Token", k)
+    spec = {
+        "Parser.name": lambda k, t, a: k == "NAME" and t != "if",
+        "Parser.keyword": lambda k, t, a: k == "NAME" and t == "if",
+        "Parser.soft_keyword": lambda k, t, a: k == "NAME" and t == "match",
+        "Parser.token": lambda k, t, a: k == a,
+        "Parser.expect": lambda k, t, a: t == a,
+    }
+    params = [a.arg for a in fnode.args.args][1:]
+    argvals = [None] if not params else (list(KINDS[:3]) if q == "Parser.token" else ["x", "if", "+", "OP"])
+    bad: list = []
+    for k in KINDS:
+        for t in TEXTS:
+            for a in argvals:
+                log: list = []
+                tok = _types.SimpleNamespace(type=("Token", k), string=t)
+
+                class _Tz:
+                    def peek(self):
+                        log.append("peek")
+                        return tok
+
+                    def getnext(self):
+                        log.append("next")
+                        return tok
+                me = _types.SimpleNamespace(_tokenizer=_Tz(), KEYWORDS=("if",), SOFT_KEYWORDS=("match",))
+                env = {"self": me, "Token": _TokEnum()}
+                if params:
+                    env[params[0]] = a
+                try:
+                    got = _mini(fnode, env, {"peek", "getnext"})
+                except _EvalError as e:
+                    return str(e), []
+                want = spec[q](k, t, a)
+                ok_ = (log.count("next") == 1 and got is tok) if want else (log.count("next") == 0 and got is None)
+                if not ok_ and len(bad) < 3:
+                    bad.append((k, t, a, log.count("next"), got is tok))
+    return "", bad
+
+
 # ------------------------------------------------------------------ runtime combinators the generated code relies on
 def rule_combinators(chk: Check):
     """Backtracking discipline of the hand-written combinators (every generated rule is built from them) and the
@@ -890,20 +948,12 @@ def rule_combinators(chk: Check):
     for q, cond in leaves.items():
         f = fn(q)
         chk.count(R)
-        PEEK = "self._tokenizer.peek()"
-        import re as _re2
-
-        def inline_peek(ps):
-            out = set()
-            for pth in ps:
-                if pth and pth[0] == ("do", f"v0 = {PEEK}"):
-                    pth = tuple((x[0], _re2.sub(r"\bv0\b", PEEK, x[1]), *x[2:]) for x in pth[1:])
-                out.add(pth)
-            return out
-        c2 = _re2.sub(r"\bv0\b", PEEK, cond)
-        want = {(("cond", c2, True), ("return", "self._tokenizer.getnext()")), (("cond", c2, False), ("return", "None"))}
-        chk.require(inline_peek(paths(f)) == want, R, q, f.where,
-                    f"`{q}` must peek one token, consume it exactly when `{cond.replace('v0', 'tok')}`, and otherwise return None without consuming")
+        und, bad = eval_leaf_matcher(f.node, q)
+        msg = (f"`{q}` must peek one token, consume it exactly when `{cond.replace('v0', 'tok')}`, and otherwise return None without consuming")
+        if und:
+            chk.undecided(R, q, f.where, f"matcher outside the evaluable subset: {und}")
+        else:
+            chk.require(not bad, R, q, f.where, msg + (f"; differs for (kind, text, argument, consumed, returned) {bad}" if bad else ""))
     # look-aheads never consume
     for q, ret in (("Parser.positive_lookahead", "v1"), ("Parser.negative_lookahead", "not v1")):
         f = fn(q)
@@ -916,16 +966,76 @@ def rule_combinators(chk: Check):
     chk.count(R)
     chk.require(_repeated_ok(f.node), R, "Parser.repeated", f.where,
                 "`repeated` must collect results in order, remember the position after each success and restore it after the failing attempt")
-    # ordered choice without actions: first truthy result, position restored between alternatives
+    # ordered choice without actions: first truthy result, position restored between alternatives — decided by evaluating the
+    # function on every sequence of up to three alternatives (bare callables and (callable, argument) tuples; failing with None,
+    # an empty list or 0; succeeding with a value) with a fake self that records marks, resets and calls
     f = fn("Parser.seq_alts")
-    cfg = CFG(f.node)
     chk.count(R)
-    loop = [n for n in own_nodes(f.node) if isinstance(n, ast.For)]
-    ok = len(loop) == 1 and norm_stmt(loop[0].iter) == "alt" and \
-        [norm_stmt(s) for s in loop[0].body][-2:] == ["if res: return res", "self._reset(mark)"] and \
-        norm_stmt(f.node.body[-1]) == "return None" and any(norm_stmt(s) == "mark = self._mark()" for s in f.node.body)
-    chk.require(ok, R, "Parser.seq_alts", f.where,
-                "`seq_alts` must try the alternatives in the order given, return the first truthy result and restore the position after each failure")
+    import itertools as _it
+    import types as _types
+    from .c17 import Crash as _Crash, EvalError as _EvalError, _mini_eval as _mini
+    bad, und = [], ""
+    outcomes = [None, [], 0, "A", ("t",)]
+    vararg = f.node.args.vararg.arg if f.node.args.vararg else None
+    if vararg is None:
+        und = "seq_alts takes no *alternatives"
+    for n in range(0, 4):
+        if und or bad:
+            break
+        for combo in _it.product(range(len(outcomes)), repeat=n):
+            for shape in _it.product((0, 1, 2), repeat=n):
+                log: list = []
+
+                def mk(i, res, as_tuple):
+                    def bare():
+                        log.append(("call", i))
+                        return res
+
+                    def witharg(x):
+                        log.append(("call", i, x))
+                        return res
+
+                    def with2(x, y):
+                        log.append(("call", i, x if y == f"brg{i}" else "?"))
+                        return res
+                    return (witharg, f"arg{i}") if as_tuple == 1 else (with2, f"arg{i}", f"brg{i}") if as_tuple == 2 else bare
+                alts = tuple(mk(i, outcomes[c], sh) for i, (c, sh) in enumerate(zip(combo, shape)))
+                me = _types.SimpleNamespace(_mark=lambda: (log.append(("mark",)), "M0")[1], _reset=lambda m: log.append(("reset", m)))
+                try:
+                    got = _mini(f.node, {"self": me, vararg: alts}, {"_mark", "_reset"}, local_calls=True)
+                except _Crash as e:
+                    bad.append((combo, shape, f"raises {e}", log[:8]))
+                    break
+                except _EvalError as e:
+                    und = str(e)
+                    break
+                first = next((i for i, c in enumerate(combo) if outcomes[c]), None)
+                want = outcomes[combo[first]] if first is not None else None
+                upto = first if first is not None else n - 1
+                calls = [x for x in log if x[0] == "call"]
+                ok_ = got == want and [c[1] for c in calls] == list(range(upto + 1 if n else 0)) and \
+                    all(len(c) == 2 or c[2] == f"arg{c[1]}" for c in calls)
+                # after every failing alternative that is followed by another attempt the position is back at the mark
+                if ok_:
+                    for j, x in enumerate(log):
+                        if x[0] == "call" and x[1] > 0:
+                            prev = log[:j]
+                            last_call = max(k for k, y in enumerate(prev) if y[0] == "call")
+                            if not any(y == ("reset", "M0") for y in prev[last_call:]):
+                                ok_ = False
+                    if first is None and n and not any(y == ("reset", "M0") for y in log[max(k for k, y in enumerate(log) if y[0] == "call"):]):
+                        ok_ = False
+                if not ok_:
+                    bad.append((combo, shape, got, log[:8]))
+                    break
+            if und or bad:
+                break
+    if und:
+        chk.undecided(R, "Parser.seq_alts", f.where, f"not evaluable: {und}")
+    else:
+        chk.require(not bad, R, "Parser.seq_alts", f.where,
+                    "`seq_alts` must try the alternatives in the order given, return the first truthy result and restore the position after "
+                    f"each failure{': ' + str(bad[0]) if bad else ''}")
     f = fn("Parser.gathered")
     chk.count(R)
     src = [norm_stmt(s0) for s0 in f.node.body if not (isinstance(s0, ast.Expr) and isinstance(s0.value, ast.Constant))]
